@@ -1,6 +1,10 @@
 package main
 
-import "golang.org/x/tools/go/ssa"
+import (
+	"strings"
+
+	"golang.org/x/tools/go/ssa"
+)
 
 func init() {
 	const key = `call:encoding/hex\.EncodeToString\(call:pkg/tbtc\.marshalPublicKey\(call:pkg/tbtc\.heartbeatAction\.wallet\(P0\)\.publicKey\)#0\)`
@@ -81,6 +85,36 @@ func init() {
 					}
 				}
 				r.Cond(ok, "C36.paths", FnName(fn)+"#return-after-sign/"+what, p.Ret.Pos(), "a completed heartbeat must "+what+" the wallet's failure run before returning")
+			}
+			// the inactive members named by the claim: the signing loop's activity report
+			// lists the members of THIS wallet's signing group that did not announce
+			r.Rule("C36.report", "activity report = (announced ready, unready among the wallet's own signing group)", 3)
+			if sl := r.MustFn("C36.report", "pkg/tbtc", "signingRetryLoop.start"); sl != nil {
+				const ann = `invoke:pkg/tbtc\.signingAnnouncer\.Announce\(.*\)#0`
+				for _, c := range Sites(sl, `^pkg/protocol/announcer\.UnreadyMembers$`, false) {
+					a := c.Common().Args
+					r.Cond(re(`^`+ann+`$`).MatchString(Desc(a[0])) && Desc(a[1]) == "len(P0.signingGroupOperators)", "C36.report", FnName(sl)+"#UnreadyMembers", c.Pos(),
+						"unready = members 1..len(wallet's signing group operators) missing from the announced list (a wallet can have fewer members than the nominal group size); got size "+abbr(Desc(a[1]), 1))
+				}
+				nA, nI := 0, 0
+				EachInstr(sl, func(in ssa.Instruction) {
+					st, ok := in.(*ssa.Store)
+					if !ok {
+						return
+					}
+					ad := Desc(st.Addr)
+					switch {
+					case strings.HasSuffix(ad, ".activeMembers"):
+						nA++
+						r.Cond(re(`^`+ann+`$`).MatchString(Desc(st.Val)), "C36.report", FnName(sl)+"#activeMembers", in.Pos(), "active members are the announced ready members")
+					case strings.HasSuffix(ad, ".inactiveMembers"):
+						nI++
+						r.Cond(strings.HasPrefix(Desc(st.Val), "call:pkg/protocol/announcer.UnreadyMembers("), "C36.report", FnName(sl)+"#inactiveMembers", in.Pos(), "inactive members are the unready members")
+					}
+				})
+				if nA != 1 || nI != 1 {
+					r.Undecided("C36.report", FnName(sl), "activity report literal not found")
+				}
 			}
 			r.FieldUnderLock("C36.lock", "pkg/tbtc", "heartbeatFailureCounter", "counters", "mutex", nil)
 			r.OnlyCalledFrom("C36.only-door", `^pkg/tbtc\.heartbeatFailureCounter\.(increment|reset)$`, 2, "pkg/tbtc.heartbeatAction.execute")
